@@ -257,6 +257,19 @@ class Spec:
             if not rs: return 'ERR'
             tg = [pub[r] for r in rs]
             self.encs.append((all(h for h, _ in tg), [v for _, v in tg])); return 'OK'
+        if op == 'AP':
+            # the two policy -> rights maps, as sets of right byte strings (LEB128 of the sorted identifiers; entity numbers
+            # coincide with attribute identifiers because both are handed out by a monotone counter starting at 0)
+            def leb(v):
+                o = bytearray()
+                while True:
+                    b = v & 0x7f; v >>= 7
+                    if v: o.append(b | 0x80)
+                    else: o.append(b); return bytes(o)
+            def show(rs):
+                if rs is None: return 'err'
+                return 'ok:' + ','.join(sorted('r' + b''.join(leb(i) for i in sorted(r)).hex() for r in rs))
+            return f'AP usk={show(self.usk_rights(self.dims, arg(f[1])))} enc={show(self.enc_rights(self.dims, arg(f[1])))}'
         if op == 'RFBAD': return 'ERR' if self.usks else 'NOIDX'
         if op == 'SNAP':
             self.snaps.append(copy.deepcopy((self.dims, self.next_eid, self.msk, self.known))); return 'OK'
